@@ -584,7 +584,7 @@ func (fg *FuncGen) builtin(v *ssa.Call, b *ssa.Builtin, c *ssa.CallCommon) {
 		case "Slice":
 			fg.define(v, "(slen "+x.S+")")
 		case "Str":
-			fg.define(v, "(str.len "+x.S+")")
+			fg.define(v, "(gs.len "+x.S+")")
 		case "Int": // map
 			mt, ok := c.Args[0].Type().Underlying().(*types.Map)
 			if !ok {
